@@ -16,6 +16,7 @@ def dispatch (m : String) (j : Json) : Except String Json :=
   | "rr" => rr j
   | "batches" => batchesJ j
   | "tree" => tree j
+  | "check" => checkJ j
   | _ => .error s!"unknown model {m}"
 
 end Sedpack.Drv
